@@ -101,6 +101,22 @@ def generate(plan) -> None:
         for d in ops:
             if d["op"] == "write" and r.random() < 0.03:
                 d["no_limits"] = True
+        rb = plan.rng("gen/bounce")  # the gateway's status topic goes offline / online again (or its retained 'online' is re-delivered)
+        ws = [d["at"] for d in ops if d["op"] == "write"]
+        if ws and rb.random() < 0.4:
+            for _ in range(rb.choice([1, 2, 4])):
+                ops.append({"op": "bounce", "at": round(rb.choice(ws) + rb.choice([0.0, 0.3, 2.0]), 3), "off": rb.choice([True, True, False])})
+    if sc == "serial":  # the application stops and restarts the gateway on the same port (a reconnect): the regulation carries over
+        rr = plan.rng("gen/reopen")
+        ws = [d["at"] for d in ops if d["op"] == "write"]
+        if ws and rr.random() < 0.25:
+            ops.append({"op": "reopen", "at": round(rr.choice(ws) + rr.choice([0.0, 0.2, 3.0]), 3)})
+    if sc == "serial":  # a few callers pass disable_tx_limits=True (part of the public signature): a serial port still regulates them
+        rn = plan.rng("gen/nolimits")
+        p_nl = rn.choice([0.0, 0.0, 0.05, 0.5])
+        for d in ops:
+            if d["op"] == "write" and rn.random() < p_nl:
+                d["no_limits"] = True
     if sc == "serial":  # a busy host: the loop services its timers late while writes are queued (own stream: other draws keep)
         rs = plan.rng("gen/stall")
         ws = [d["at"] for d in ops if d["op"] == "write"]
@@ -110,10 +126,19 @@ def generate(plan) -> None:
                             "dur": rs.choice([0.12, 0.3, 0.5, 1.0, 3.0])})
 
 
+class _NoTransport:
+    async def write_frame(self, frame, disable_tx_limits: bool = False) -> None:
+        raise exc.TransportError("the gateway is restarting")
+
+    def close(self) -> None:
+        pass
+
+
 class Sim:
     def __init__(self, ctx) -> None:
         self.ctx = ctx
         self.calls: dict[int, dict] = {}
+        self.pending: dict[int, asyncio.Task] = {}
         self.out: list[tuple[float, str]] = []
 
     def now(self):
@@ -133,6 +158,7 @@ async def run(ctx) -> None:
 
 async def writer_task(sim: Sim, tr, todo: list[dict], t_start: float) -> None:
     loop = sim.ctx.loop
+    box = tr if isinstance(tr, list) else [tr]
     for d in todo:
         delay = t_start + d["at"] - loop.time()
         if delay > 0:
@@ -140,11 +166,15 @@ async def writer_task(sim: Sim, tr, todo: list[dict], t_start: float) -> None:
         fr = frame_of(d["id"], d["n"])
         ent = sim.calls[d["id"]] = {"frame": fr, "call": loop.time(), "ret": None, "exc": None, "seq": len(sim.ctx.events)}
         sim.ctx.ev("call", d["id"])
+        wt = loop.create_task(box[0].write_frame(fr, disable_tx_limits=True) if d.get("no_limits") else box[0].write_frame(fr))
+        sim.pending[d["id"]] = wt
         try:
-            if d.get("no_limits"):
-                await tr.write_frame(fr, disable_tx_limits=True)
-            else:
-                await tr.write_frame(fr)
+            try:
+                await wt
+            except asyncio.CancelledError:
+                if not wt.cancelled():
+                    raise
+                ent["exc"] = "abandoned_when_the_transport_was_closed"
         except exc.TransportError as err:
             ent["exc"] = type(err).__name__
         except Exception as err:  # noqa
@@ -186,7 +216,33 @@ async def run_serial(ctx) -> None:
     for d in plan.ops:
         if d["op"] == "stall":
             loop.add_stall(t_start + d["at"], d["dur"])
-    tasks = [loop.create_task(writer_task(sim, tr, todo, t_start)) for todo in by_task.values()]
+    box = [tr]
+
+    async def reopen(at: float) -> None:
+        await asyncio.sleep(max(0.0, t_start + at - loop.time()))
+        for _ in range(40000):  # (an orderly restart: no write_frame() call is left hanging in the transport that is closed)
+            if all(e["ret"] is not None for e in sim.calls.values()):
+                break
+            await asyncio.sleep(0.05)
+        else:
+            return
+        connected[0] = False
+        old_tr, box[0] = box[0], _NoTransport()  # (while it restarts, the application has no transport to write to)
+        old_tr.close()
+        await asyncio.sleep(0.05)
+        for wt in sim.pending.values():  # a call that slipped in at the very instant of the close hangs in the dead transport's gap
+            if not wt.done():            # semaphore (its leaker task is gone): the application abandons it
+                wt.cancel()
+        await asyncio.sleep(0.15)
+        ser.is_open = True
+        proto2 = P.protocol_factory(lambda m: None, disable_qos=True)
+        box[0] = T.PortTransport(ser, proto2, loop=loop)
+        await proto2.wait_for_connection_made(timeout=3)
+        connected[0] = True
+        hub.count("transport_reopened")
+
+    reopeners = [loop.create_task(reopen(d["at"])) for d in plan.ops if d["op"] == "reopen"]
+    tasks = [loop.create_task(writer_task(sim, box, todo, t_start)) for todo in by_task.values()]
     n_calls = sum(len(v) for v in by_task.values())
     total_bits = sum(bits(frame_of(d["id"], d["n"])) for v in by_task.values() for d in v)
     drain = total_bits / RATE + n_calls * GAP + plan.knob("horizon", 60) + 120 + sum(d["dur"] for d in plan.ops if d["op"] == "stall")
@@ -200,7 +256,10 @@ async def run_serial(ctx) -> None:
         if t.exception() is not None:
             raise t.exception()
     await asyncio.sleep(1.0)
-    tr.close()
+    for t in reopeners:
+        if not t.done():
+            t.cancel()
+    box[0].close()
     await asyncio.sleep(0.1)
 
     # ---- oracles over the write history -------------------------------------------------
@@ -331,6 +390,16 @@ async def run_mqtt(ctx) -> None:
     for d in plan.ops:
         if d["op"] == "write":
             by_task.setdefault(d["task"], []).append(d)
+    def bounce(off: bool) -> None:
+        hub_count("mqtt_status_bounce")
+        if off:
+            cl.on_message(cl, None, FakeMqttMessage("RAMSES/GATEWAY/18:017804", b"offline"))
+        cl.on_message(cl, None, FakeMqttMessage("RAMSES/GATEWAY/18:017804", b"online"))
+
+    hub_count = ctx.hub.count
+    for d in plan.ops:
+        if d["op"] == "bounce":
+            loop.call_at(t_start + d["at"], bounce, d.get("off", True))
     tasks = [loop.create_task(writer_task(sim, tr, todo, t_start)) for todo in by_task.values()]
     done, pending = await asyncio.wait(tasks, timeout=plan.knob("horizon", 60) + 600) if tasks else (set(), set())
     if pending:
